@@ -14,7 +14,7 @@ JOBS = 8
 BATCH_TIMEOUT = 400
 RULE = ("scenario = one forward.New proxy (StateListener around it, real net/http server, transport with ResponseHeaderTimeout) and a scripted raw "
         "loopback backend; ops: a backend response (also 2-6 concurrent ones) (status, header set, body size 0..1MiB (thorough 8MiB), Content-Length / chunked / close-delimited framing, "
-        "write-size and flush pattern), a failure mode (refused, RST or FIN before the head, garbage, header timeout, client cancellation), an abort "
+        "write-size and flush pattern, header sets up to 64 KiB (thorough 300 KiB) as one long value, a few, or hundreds of short ones; half of the scenarios keep the transport forward.New chose), a failure mode (refused, RST or FIN before the head, garbage, header timeout, client cancellation), an abort "
         "after the head, or a StateListener around a returning / panicking handler; non-trivial = at least one failure or abort op and one response "
         "with a body >= 4096 bytes or chunked framing")
 ASSUMPTIONS = [
@@ -72,6 +72,36 @@ E2E = ["X-E2e", "Set-Cookie", "Cache-Control", "Etag", "Location", "x-lower-resp
 VALS = ["v1", "a b", "x,y", 'q="1"', "50%", "a|b", "", "max-age=0", "tab\tin"]
 
 
+LONGCHARS = "abcdefghijklmnopqrstuvwxyzABCDEFGHIJKLMNOPQRSTUVWXYZ0123456789=;-_./ ,"
+
+
+def long_value(rng, n):
+    off = rng.randint(0, len(LONGCHARS) - 1)
+    v = ((LONGCHARS[off:] + LONGCHARS[:off]) * (n // len(LONGCHARS) + 1))[:n]
+    return v.strip(" ") or "x"
+
+
+def big_headers(rng, tier):
+    """a large response head: many headers and/or long single values; totals straddle 4/8/10/16/64 KiB, thorough up to a few hundred KiB"""
+    totals = [3000, 4096, 8000, 9500, 10240, 10800, 12000, 16384, 20000, 40000, 65536]
+    if tier == "thorough":
+        totals += [100000, 200000, 300000]
+    total = rng.choice(totals)
+    out = []
+    style = rng.random()
+    if style < 0.4:      # one long value (Set-Cookie / CSP like)
+        out.append((rng.choice(["Set-Cookie", "Content-Security-Policy", "Link", "X-Long"]), long_value(rng, total)))
+    elif style < 0.7:    # a few long values
+        k = rng.randint(2, 6)
+        for i in range(k):
+            out.append((rng.choice(["Set-Cookie", "Link", "X-Long-%d" % i]), long_value(rng, max(1, total // k))))
+    else:                # many short headers
+        per = rng.choice([20, 60, 200])
+        for i in range(max(1, total // (per + 12))):
+            out.append(("X-Many-%d" % i, long_value(rng, per)))
+    return out
+
+
 def gen_resp(rng, tier):
     s = rng.choice(STATUS)
     seed = rng.randint(0, 255)
@@ -113,6 +143,8 @@ def gen_resp(rng, tier):
             t.append(rng.choice([x, x.lower(), x.upper()]))
         t = [x for x in t if x.lower() != "close"]
         rh.append(("Connection", rng.choice([",", ", "]).join(t)))
+    if rng.random() < 0.12:
+        rh += big_headers(rng, tier)
     rng.shuffle(rh)
     for nm, v in rh:
         toks.append("rh=%s:%s" % (nm, pe(v.strip(" \t"))))
@@ -143,7 +175,7 @@ def gen(rng, tier):
     for k in range(n_scen):
         if k % 6 == 5:
             # short response-header timeout: only ops whose outcome does not depend on the backend answering in time
-            lines = ["cfg rht=120"]
+            lines = ["cfg rht=120 tr=" + rng.choice(["own", "keep"])]
             for _ in range(rng.randint(3, 8)):
                 r = rng.random()
                 if r < 0.4:
@@ -153,7 +185,8 @@ def gen(rng, tier):
                 else:
                     lines.append("listener " + rng.choice(["ret", "panic", "abort"]))
         else:
-            lines = ["cfg rht=3000"]
+            # tr=keep: the RoundTripper forward.New chose is kept (what a caller gets who configures nothing)
+            lines = ["cfg rht=3000 tr=" + rng.choice(["own", "keep"])]
             for _ in range(rng.randint(6, 24)):
                 r = rng.random()
                 if r < 0.07:
@@ -299,6 +332,8 @@ def nontrivial(ops, outs):
 def describe(ops, outs, hist):
     for l, o in zip(ops, outs):
         f = l.split(" ")
+        if f[0] == "cfg":
+            hist["cfg:" + (f[2] if len(f) > 2 else "tr=own")] += 1
         if f[0] == "fail":
             hist["fail:" + f[1]] += 1
             hist["fail-status:" + o.split(" ")[0]] += 1
@@ -308,6 +343,8 @@ def describe(ops, outs, hist):
             hist["mode:" + (m.group(1) if m else "?")] += 1
             m = re.search(r" d=(\d+):", l)
             n = int(m.group(1)) if m else 0
+            hl = sum(len(t) for t in f if t.startswith("rh="))
+            hist["head:" + ("<1k" if hl < 1024 else "<10k" if hl < 10240 else "<64k" if hl < 65536 else ">=64k")] += 1
             hist["size:" + ("0" if n == 0 else "<4k" if n < 4096 else "<64k" if n < 65536 else "<1M" if n < (1 << 20) else ">=1M")] += 1
         elif f[0] in ("abort", "listener"):
             hist["op:" + " ".join(f[:2]) if f[0] == "listener" else "op:abort"] += 1
